@@ -402,6 +402,17 @@ def one_project(args):
     base = os.path.join(wd, "p%d" % k)
     proj.write_components(base)
     lowercase = rng.random() < 0.8
+    if rng.random() < 0.25:
+        # some component files are symbolic links into a store that is not imported (widgets shared between projects): a link
+        # named X.qml in the directory is still the file X.qml of that directory
+        os.makedirs(os.path.join(base, ".store"))
+        for n, c in enumerate(proj.comps.values()):
+            if rng.random() < 0.6:
+                path = os.path.join(base, proj.comp_path(c))
+                blob = os.path.join(base, ".store", "%d.blob" % n)
+                os.rename(path, blob)
+                os.symlink(os.path.relpath(blob, os.path.dirname(path)), path)
+                proj.features.add("symlinked-component")
     # probe: what does qmluic say an ambiguous root name denotes?  (the component file translated alone)
     probes = []
     for n, c in enumerate(proj.ambiguous()):
